@@ -20,7 +20,8 @@ RULE = ("Hypothesis: a history of 1-8 operations (append / delete_files / expire
         "raises - and CRASH leftovers - process death between metadata write and pointer flip - which both leave uncommitted vN metadata files), then the "
         "pointer is damaged by a byte grammar {deleted, empty, whitespace, random bytes, invalid UTF-8, digits (missing legacy / huge), legacy name, "
         "well-formed name of a missing file, of an OLDER committed version (stale), of an uncommitted orphan, current name with LF/CRLF/spaces, with path "
-        "separators or '..'}, then an action {load_table, create_table(other schema), append, scan, garbage_collect after ageing}. Oracle: the model knows "
+        "separators or '..'}, then - in a third of the cases - the same open/append once under a storage READ error (nth list_files/read_file/exists/"
+        "get_modified_time call fails, one-shot or persistently; refusing is allowed), then an action {load_table, create_table(other schema), append, scan, garbage_collect after ageing}. Oracle: the model knows "
         "the sequence of committed versions; the table in effect must have the original uuid and schema and the snapshot list and rows of the LATEST "
         "COMMITTED version; create_table must not re-initialise; an append must preserve all committed rows; GC must not delete files of the latest "
         "committed version. Non-trivial: the highest vN on disk is not the latest committed version, or the pointer names an existing but wrong version. "
@@ -42,8 +43,43 @@ def case_strategy(draw):
     if draw(st.integers(0, 24)) == 0:
         # long histories: two-digit version numbers (v9 -> v10 ordering), optionally followed by the usual mix
         steps = [{"op": "append", "n": 1} for _ in range(draw(st.integers(9, 13)))] + steps
+    fault = None
+    if draw(st.integers(0, 2)) == 0:
+        # a storage READ error while the damaged table is being opened (one-shot or persisting for that call)
+        fault = {"method": draw(st.sampled_from(FAULT_METHODS)), "nth": draw(st.integers(1, 4)), "sticky": draw(st.booleans())}
     return {"kind": "pointer", "steps": steps, "damage": draw(st.sampled_from(DAMAGES)), "action": draw(st.sampled_from(ACTIONS)),
-            "rnd": draw(st.binary(min_size=1, max_size=12)), "stale_idx": draw(st.integers(0, 6))}
+            "rnd": draw(st.binary(min_size=1, max_size=12)), "stale_idx": draw(st.integers(0, 6)), "fault": fault}
+
+
+FAULT_METHODS = ["list_files", "list_files", "read_file", "exists", "get_modified_time"]
+
+
+class _storage_fault:
+    """The nth call of one LocalStorageBackend read method raises EIO (and every later one too if sticky)."""
+
+    def __init__(self, spec):
+        self.spec, self.calls, self.fired = spec, 0, 0
+
+    def __enter__(self):
+        from datashard.storage_backend import LocalStorageBackend as B
+
+        self.cls, self.name = B, self.spec["method"]
+        self.orig = getattr(B, self.name)
+        me = self
+
+        def wrapper(obj, *a, **k):
+            me.calls += 1
+            if me.calls == me.spec["nth"] or (me.spec["sticky"] and me.calls > me.spec["nth"]):
+                me.fired += 1
+                raise OSError(5, "injected I/O error")
+            return me.orig(obj, *a, **k)
+
+        setattr(B, self.name, wrapper)
+        return self
+
+    def __exit__(self, *exc):
+        setattr(self.cls, self.name, self.orig)
+        return False
 
 
 def _version_of(name):
@@ -153,6 +189,23 @@ def check_case(case):
         # ---- action
         act = case["action"]
         other_schema = tbl.make_schema([{"id": 9, "name": "zzz", "type": "string", "required": False}], 7)
+        faulted_row = None  # None: no append attempted under the fault; (row, acknowledged)
+        if case.get("fault"):
+            # phase A: the open (and, for the append actions, an append) with a storage read error. Refusing is fine;
+            # whatever happened, the table in effect afterwards - read WITHOUT the fault - must still be the latest committed version
+            with _storage_fault(case["fault"]) as sf:
+                try:
+                    tf = datashard.create_table(root, other_schema) if act == "create_table" else datashard.load_table(root)
+                    if act in ("append", "append_then_lose_pointer"):
+                        faulted_row = ({"k": -3, "s": "faulted"}, False)
+                        tf.append_records([faulted_row[0]])
+                        faulted_row = (faulted_row[0], True)
+                    out["labels"].append("faulted-phase-returned")
+                except Exception as e:  # noqa
+                    out["labels"].append("faulted-phase-raised")
+            out["labels"].append(f"fault:{case['fault']['method']}:{'fired' if sf.fired else 'not-reached'}")
+            if act == "create_table":
+                act = "load_table"
         try:
             if act == "create_table":
                 t = datashard.create_table(root, other_schema)
@@ -174,6 +227,13 @@ def check_case(case):
             return out
         if fields_now != [f["name"] for f in FIELDS]:
             vio("schema-replaced", f"schema fields now {fields_now}")
+            return out
+        if faulted_row is not None and len(ids_now) == len(want_ids) + 1 and ids_now[:-1] == want_ids:
+            # the append made under the fault landed (acknowledged, or reported failed after its commit point)
+            want_ids = ids_now
+            want_rows = want_rows + rows_multiset([faulted_row[0]])
+        elif faulted_row is not None and faulted_row[1] and ids_now == want_ids:
+            vio("acknowledged-append-under-fault-lost", "append_records returned under the fault but its snapshot is not in the table")
             return out
         if ids_now != want_ids:
             vio("wrong-version", f"snapshots in effect {ids_now} != latest committed {want_ids}")
